@@ -212,6 +212,69 @@ def compound_obj(pt, atoms, density=None, natural_density=None):
     return formula(s, density=density, natural_density=natural_density)
 
 
+_REVISED_PRIVATE = {}
+
+
+def revised_private_table(name="ptv-neutron-revised"):
+    """A private PeriodicTable (one per process and name) of a user who revised the data:
+
+    * BEFORE the neutron data are attached (`nsf.init`): element densities (x 0.79 .. 1.21 by Z mod 7,
+      unchanged where Z mod 7 == 3) and masses of elements (x 0.98 .. 1.02 by Z mod 5) and isotopes
+      (x 0.996 .. 1.004 by A mod 3) – the number densities served for direct queries follow from these;
+    * AFTER it: scattering length, absorption and total cross section of every record of an element
+      that has no energy-dependent entry (b_c x 1.1 .. 1.5 by Z mod 5, absorption x 1.25, total x the
+      square), with `b_c_complex` kept equal to its documented definition b_c - i sigma_a/(2000 x 1.798).
+
+    The public table is loaded first (as it is in ordinary use); nothing of it is modified."""
+    if name not in _REVISED_PRIVATE:
+        from periodictable import core, mass, density, nsf, elements
+        from periodictable.nsf_tables import ENERGY_DEPENDENT_TABLES
+        hasattr(elements[0], "neutron")            # ordinary use: the public neutron data are there already
+        core.PRIVATE_TABLES.pop(name, None)
+        T = core.PeriodicTable(name)
+        mass.init(T)
+        density.init(T)
+        for el in T:
+            z = el.number
+            if getattr(el, "_density", None) is not None:
+                el._density = el._density * (1.0 + 0.07 * ((z % 7) - 3))
+            if getattr(el, "_mass", None) is not None and z > 0:
+                el._mass = el._mass * (1.0 + 0.01 * ((z % 5) - 2))
+            for a in el.isotopes:
+                iso = el[a]
+                if getattr(iso, "_mass", None) is not None and z > 0:
+                    iso._mass = iso._mass * (1.0 + 0.004 * ((a % 3) - 1))
+        nsf.init(T)
+        ed = {sym for sym, _ in ENERGY_DEPENDENT_TABLES} | {"Lu"}
+        seen = set()
+        for el in T:
+            if el.symbol in ed:
+                continue
+            for x in [el] + [el[a] for a in el.isotopes]:
+                rec = x.__dict__.get("neutron")
+                if rec is None or id(rec) in seen or rec.b_c is None or rec.absorption is None:
+                    continue
+                seen.add(id(rec))
+                k = 1.0 + 0.1 * ((el.number % 5) + 1)
+                rec.b_c = rec.b_c * k
+                rec.absorption = rec.absorption * 1.25
+                if rec.total is not None:
+                    rec.total = rec.total * k * k
+                rec.b_c_complex = rec.b_c - 1j * rec.absorption / (2000 * nsf.ABSORPTION_WAVELENGTH)
+        _REVISED_PRIVATE[name] = T
+    return _REVISED_PRIVATE[name]
+
+
+class TableView:
+    """stands where the `periodictable` package is expected by the helpers of the neutron checks
+    (`.elements`, `.neutron_sld`), with a private table as `.elements`"""
+
+    def __init__(self, pt, tbl):
+        self.elements = tbl
+        self.neutron_sld = pt.neutron_sld
+        self.public = pt
+
+
 _BUFFERS = {}
 _BUFLIST = {}
 
